@@ -5,6 +5,8 @@ from ..core import AnalysisError, u, walk_local, enclosing_stmt
 from ..lib import (construct, std_facts, def_of, facts_imply, facts_at,
                    calls_of_node, returns_of, copy_kind, kwarg)
 from ..resolve import store_accesses
+from ..cfg import witness
+from .common import allowed_stores, instance_state
 
 
 def registration(ctx, qual):
@@ -30,7 +32,13 @@ def run(ctx):
   dm = ctx.func('config.ParserDelegate.macro')
   con = construct(dm)
   rets = [r for r in returns_of(dm) if r.value is not None]
-  ctx.expect_at_least('returns of ParserDelegate.macro', len(rets), 2)
+  ctx.expect_at_least('returns of ParserDelegate.macro', len(rets), 1)
+  instance_state(ctx, 'C05.late', 'config.ParserDelegate', {'_skip_unknown'},
+                 'every use of %name must get its own evaluated reference; references shared between uses are evaluated once per '
+                 'deepcopy (copy.deepcopy memoises by object identity), so a macro bound to an evaluated reference is no longer re-evaluated at every use')
+  allowed_stores(ctx, 'C05.late', {'config.ParserDelegate.macro': {'_CONSTANTS'}, 'config.macro': set(),
+                                   'config._retrieve_constant': {'_CONSTANTS'}, 'config.constant': {'_CONSTANTS', '_INTERACTIVE_MODE'}},
+                 'macro and constant values must be looked up at use time from the binding store / constant table only')
   ok = True
   suffixes = []
   for r in rets:
@@ -40,8 +48,8 @@ def run(ctx):
     ok = ok and good
     if good and isinstance(v.args[0], ast.BinOp) and isinstance(v.args[0].right, ast.Constant):
       suffixes.append(v.args[0].right.value)
-  ctx.check(ok, 'C05.late', con, '%name becomes an *evaluated* reference: the value is looked up at every use, not at parse time',
-            '%%name no longer becomes an evaluated reference (%s)' % [u(r.value) for r in rets], dm.loc(), instance='evaluated')
+  ctx.check(ok, 'C05.late', con, '%name becomes a newly constructed *evaluated* reference at every use: the value is looked up at every use, not at parse time',
+            '%%name no longer yields a newly constructed evaluated reference per use (returns %s)' % [u(r.value) for r in rets], dm.loc(), instance='evaluated')
   _, acc = store_accesses(prog, 'config', ['_CONFIG'])
   direct = [a for a in acc if a.func is not None and a.func.qual.startswith('config.ParserDelegate')]
   ctx.check(not direct, 'C05.late', con, 'the delegate does not read the binding store (no early lookup of the macro value)',
@@ -126,6 +134,18 @@ def run(ctx):
   vr = [c for c in walk_local(hk.node) if isinstance(c, ast.Call) and prog.resolve_call(hk, c) == 'config.validate_reference']
   ev = bool(vr) and all(any(k.arg == 'require_evaluation' and isinstance(k.value, ast.Constant) and k.value.value is True for k in c.keywords)
                         and not any(k.arg == 'require_bindings' and isinstance(k.value, ast.Constant) and k.value.value is False for k in c.keywords) for c in vr)
+  # every reference is validated: the validation call is reached on every pass through the loop body
+  g_h, _f_h = std_facts(prog, hk)
+  loops_h = [n for n in g_h.live_nodes() if n.kind == 'for']
+  vnodes = [n for n in g_h.live_nodes() if any(prog.resolve_call(hk, c) == 'config.validate_reference' for c in calls_of_node(n))]
+  every = bool(loops_h) and bool(vnodes)
+  for lp in loops_h:
+    first = [b for b, k in g_h.succ[lp.id] if k == 'loop']
+    if first and first[0] not in [v.id for v in vnodes] and witness(g_h, first[0], [lp.id], avoid=[v.id for v in vnodes]) is not None:
+      every = False
+  ctx.check(every, 'C05.hook', construct(hk), 'every macro reference found is validated (no reference is skipped)',
+            'some macro references are skipped by the finalize hook (the validation is not reached on every pass through the loop): '
+            'an unevaluated or unbound use of a macro that was already seen once is accepted', hk.loc(), instance='every-reference')
   ctx.check(ok and tgt and ev, 'C05.hook', construct(hk), 'the macro hook is registered and validates every macro reference for bindings and evaluation',
             'the macro finalize hook is %s' % ('not registered' if not ok else 'no longer validating bindings+evaluation of macro references'), hk.loc())
   vf = ctx.func('config.validate_reference')
